@@ -15,7 +15,7 @@ class C04(Monitor):
         trk = e.trk
         if s.kind == 'recv':
             conn = s.snap['conn_recv']
-            single = len(s.units) == 1
+            single = s.exact
             for i, f in enumerate(s.units):
                 if f.type != C.DATA or f.bad:
                     continue
